@@ -110,9 +110,10 @@ def apis():
 
 
 def first_kw(c, v):
-  for p in graphs.sig_of(c):
-    if p[1] in ('pk', 'ko'):
-      return {p[0]: v}
+  names = [p[0] for p in graphs.sig_of(c) if p[1] in ('pk', 'ko')]
+  tagged = [n for n in names if c.__argument_tags__.get(n)]      # prefer an argument that is tagged already
+  for n in tagged + names:
+    return {n: v}
   return {}
 
 
@@ -169,6 +170,11 @@ def make_root(case):
     fdl.add_tag(sub, 'p', targets.T0)
     root = fdl.Config(graphs.node_fn(1, 0), p=root, q=sub, r=[sub, [], {}])
     fdl.add_tag(root, 'q', targets.T3)
+  # the top-level node carries tags of its own in every flavour: a shallow copy that shares the
+  # per-argument tag sets, or a copy-returning API that tags through to its input, must show
+  for k in list(root.__arguments__)[:3]:
+    if isinstance(k, str) and r.random() < 0.6:
+      fdl.add_tag(root, k, r.choice(targets.TAGS))
   return root
 
 
